@@ -246,6 +246,8 @@ def run(P: Program, R: Report, tier: str) -> None:
     validators_unavoidable(P, R, "R12.8")
     # ---- R12.9 the builder's header is read before build()
     builder_protocol(P, R, "R12.9")
+    # ---- R12.10 combining columns of different dtypes promotes, never casts to the first column's dtype
+    combination_promotes(P, R, "R12.10")
 
 
 def source_id_truthiness(P: Program, R: Report, rule: str) -> None:
@@ -426,3 +428,50 @@ def builder_protocol(P: Program, R: Report, rule: str) -> None:
                         f"a path reaches `{norm(c)[:50]}` without `{b}.read_header()` / `{b}.prepare()`: the name map is then not checked against the "
                         "columns that exist, and a source lacking a mapped column is imported instead of rejected", via="cfg-must-pass")
     R.floor(rule, "builder.build() call sites in import entry points", n, 2)
+
+
+def combination_promotes(P: Program, R: Report, rule: str) -> None:
+    """Several source columns are combined into one property array.  The columns may have different dtypes (an integer
+    frame-like column next to a float one).  numpy's stacking functions promote to a common dtype; an array allocated
+    with the dtype of ONE part and then filled by assignment casts the other parts silently (floats are truncated)."""
+    STACK = {"column_stack", "stack", "vstack", "hstack", "concatenate", "array", "asarray", "dstack", "transpose"}
+    ALLOC = {"empty", "zeros", "ones", "full", "empty_like", "zeros_like", "ones_like", "full_like", "ndarray"}
+    n = 0
+    for f in P.functions.values():
+        if ".import_export." not in f.qname:
+            continue
+        for d in ast.walk(f.node):
+            if not isinstance(d, ast.Dict):
+                continue
+            vals = [v for k, v in zip(d.keys, d.values, strict=True) if isinstance(k, ast.Constant) and k.value == "values" and isinstance(v, ast.Name)]
+            for v in vals:
+                defs = [s for s in ast.walk(f.node) if isinstance(s, ast.Assign) and any(isinstance(t, ast.Name) and t.id == v.id for t in s.targets)]
+                for s in defs:
+                    c = s.value
+                    if not isinstance(c, ast.Call):
+                        continue
+                    nm = call_name(c)
+                    label = f"{f.short}: columns combined into `{v.id}` keep their values (common dtype)"
+                    if nm in STACK and not any(k.arg == "dtype" for k in c.keywords):
+                        n += 1
+                        R.ok(rule, f, s, label, f"`{nm}` promotes to a common dtype", via="syntax")
+                    elif nm in ALLOC:
+                        n += 1
+                        filled = [a for a in ast.walk(f.node) if isinstance(a, ast.Assign) and isinstance(a.targets[0], ast.Subscript) and norm(a.targets[0].value) == v.id]
+                        dt = next((k.value for k in c.keywords if k.arg == "dtype"), None)
+                        dtxt = norm(dt) if dt is not None else ("like " + norm(c.args[0]) if nm.endswith("_like") and c.args else "float64 default")
+                        if dt is not None and any(w in dtxt for w in ("result_type", "promote_types", "find_common_type", "object", "float64", "np.float_", "common")):
+                            R.ok(rule, f, s, label, f"allocated with `{dtxt}`", via="syntax")
+                        elif dt is None and not nm.endswith("_like"):
+                            R.ok(rule, f, s, label, "allocated with numpy's float64 default", via="syntax")
+                        elif filled and (dtxt.endswith(".dtype") or dtxt.startswith("like ") or dtxt in ("int", "np.int64", "np.int32", "'int'", "np.intp", "np.uint64")):
+                            R.fail(rule, f, s, label, f"`{v.id}` is allocated with dtype `{dtxt}` and then filled by `{norm(filled[0])[:50]}`: a column of another dtype is "
+                                   "cast silently (a float column next to an integer one is truncated) - the imported values no longer equal the source")
+                        else:
+                            R.undecided(rule, f, s, label, f"allocation with dtype `{dtxt}`")
+                    elif nm in STACK:
+                        n += 1
+                        dt = next(k.value for k in c.keywords if k.arg == "dtype")
+                        R.undecided(rule, f, s, label, f"`{nm}` with an explicit dtype `{norm(dt)}`")
+    if n == 0:
+        R.undecided(rule, "import_export", "", "combined property arrays keep the values of every column", "no combination site recognised")
